@@ -24,6 +24,7 @@ import GM.Proof.IndepReset
 import GM.Proof.IndepEnd
 import GM.Props.C09Shift
 import GM.Props.C09Prefix
+import GM.Props.C09E2E
 
 namespace GM.Props.C09
 open GM GM.Refs
@@ -404,5 +405,26 @@ theorem independent_blocks_wide : type_of% @GM.Props.C09Shift.independent_blocks
 
 /-- (package shiftsim, round 4) `PrefixReached` for the positional class -/
 theorem prefix_reached_positional : type_of% @GM.Props.C09Shift.prefix_reached_positional := @GM.Props.C09Shift.prefix_reached_positional
+
+/-- (re-export of `GM.Props.C09E2E.renderer_heading_then_rest`) **the renderer on a Document whose first child is a Heading**: the heading, then the other children — a Heading does not look
+    at its next sibling (html.go:renderHeading) -/
+theorem renderer_heading_then_rest : type_of% @GM.Props.C09E2E.renderer_heading_then_rest := @GM.Props.C09E2E.renderer_heading_then_rest
+
+/-- (re-export of `GM.Props.C09E2E.parse_heading_then_blocks`) **C09 first half at the level of the renderer's tree, empty `A`**: `parseDoc ("\n# h\n\n" ++ b)` is
+    Document[the Heading of `parseDoc "# h\n"`, the children of `parseDoc b`] -/
+theorem parse_heading_then_blocks : type_of% @GM.Props.C09E2E.parse_heading_then_blocks := @GM.Props.C09E2E.parse_heading_then_blocks
+
+/-- (re-export of `GM.Props.C09E2E.heading_then_blocks_html`) **`heading_then_blocks_html` — C09 first half at HTML level, empty `A`**, given the inline invariant for the heading and for
+    the blocks of `b` -/
+theorem heading_then_blocks_html : type_of% @GM.Props.C09E2E.heading_then_blocks_html := @GM.Props.C09E2E.heading_then_blocks_html
+
+/-- (re-export of `GM.Props.C09E2E.inline_move_good_lines`) **the inline hypothesis holds for blocks of plain-text lines**, the lines moved into `P ++ src ++ S` -/
+theorem inline_move_good_lines : type_of% @GM.Props.C09E2E.inline_move_good_lines := @GM.Props.C09E2E.inline_move_good_lines
+
+/-- (re-export of `GM.Props.C09E2E.heading_then_blocks_html_good_lines`) **without the inline hypothesis: plain-text inline content**, any block structure in `b` -/
+theorem heading_then_blocks_html_good_lines : type_of% @GM.Props.C09E2E.heading_then_blocks_html_good_lines := @GM.Props.C09E2E.heading_then_blocks_html_good_lines
+
+/-- (re-export of `GM.Props.C09E2E.heading_then_blocks_html_checked`) **… with decidable hypotheses** (`GM.Props.C08E2E.goodLinesCheck`: run the block phase, test every block with inline content) -/
+theorem heading_then_blocks_html_checked : type_of% @GM.Props.C09E2E.heading_then_blocks_html_checked := @GM.Props.C09E2E.heading_then_blocks_html_checked
 
 end GM.Props.C09
